@@ -689,7 +689,9 @@ class _OsCryptBackend(_BcryptCommon):
         #
         secret, ident = self._prepare_digest_args(secret)
         config = self._get_config(ident)
-        hash = safe_crypt(secret, config)
+        # NOTE: bcrypt only uses the first 72 bytes, and some crypt() implementations refuse
+        #       long passphrases outright (libxcrypt: 512 bytes and more).
+        hash = safe_crypt(utf8_truncate(secret, 72), config)
         if hash is not None:
             if not hash.startswith(config) or len(hash) != len(config) + 31:
                 raise uh.exc.CryptBackendError(self, config, hash)
